@@ -311,12 +311,11 @@ Fixpoint heval (E : henv) (e : hx) : out dv :=
   | XMacro2 name a b =>
       bind (as_val (heval E a)) (fun va => bind (as_val (heval E b)) (fun vb =>
         bind (macro_vals name [va; vb]) (fun r => Val (DV r))))
-  | XReduce f xs init =>
-      bind (as_tup (heval E xs)) (fun l =>
-        match init with
-        | None => bind (reduce (apply_fn f) l None) (fun r => Val (DV r))
-        | Some i => bind (as_val (heval E i)) (fun vi => bind (reduce (apply_fn f) l (Some vi)) (fun r => Val (DV r)))
-        end)
+  | XReduce f xs =>
+      bind (as_tup (heval E xs)) (fun l => bind (reduce (apply_fn f) l None) (fun r => Val (DV r)))
+  | XReduce3 f xs i =>
+      bind (as_tup (heval E xs)) (fun l => bind (as_val (heval E i)) (fun vi =>
+        bind (reduce (apply_fn f) l (Some vi)) (fun r => Val (DV r))))
   | XFoldr f xs =>
       bind (as_tup (heval E xs)) (fun l => bind (foldr_py (apply_fn f) l) (fun r => Val (DV r)))
   | XTupCat1 a rest =>
@@ -371,6 +370,7 @@ End Sem.
 Arguments Val {exn A} _.
 Arguments Exn {exn A} _.
 Arguments Stuck {exn A}.
+Arguments bind {exn A B} _ _.
 
 (* ------------------------------------------------------------------ *)
 (* 4. The documented Python expansion                                  *)
